@@ -2,6 +2,7 @@ import SupervisorModel.Model.LogRead
 import SupervisorModel.Model.TailF
 import SupervisorModel.Model.RpcLog
 import SupervisorModel.Lemmas.Chunked
+import SupervisorModel.Model.OutBuf
 /-
   C16 — log retrieval returns exactly the requested bytes.
   Property theorems only.  The definitions unfolded here (`Sv.Gen.LogRead.*`, `Sv.Gen.TailF.*`,
@@ -407,5 +408,243 @@ example : (feedAll initDec [[50, 13], [10, 104], [105, 13, 10, 49, 13, 10, 33, 1
   decide
 example : (encMore {} (.text [61, 61, 62])).2 = .out [51, 13, 10, 61, 61, 62, 13, 10] := by decide
 example : (encMore {} (.bytes [])).2 = .out [48, 13, 10, 13, 10] := by decide
+
+end Sv.Props.C16
+
+/-! ## The channel's output buffer: between the producers and the socket
+
+  `deferring_http_channel.refill_buffer` + `async_chat.initiate_send` (Model/OutBuf.lean; the refill
+  expression, the refill test, what is offered to `send()` and what is kept afterwards are generated
+  definitions `chRefill_a4`, `initSend_g0`, `initSend_c0_0`, `initSend_a2`).  The producers are any
+  list of answers (pieces of any size, NOT_DONE_YET, exhausted producers); the socket accepts any
+  number of the offered bytes on each call. -/
+namespace Sv.Props.C16
+open Sv Sv.OutBuf Sv.Gen.Chunked Sv.Chunked
+
+/-- the methods that touch the output buffer are the ones modelled: `deferring_http_channel` defines
+    `refill_buffer` only, medusa's `http_channel` none of them, `async_chat` provides `initiate_send`
+    (called by `handle_write` and `push_with_producer`); `refill_buffer` assigns the buffer in two
+    places (a bytes object from the fifo, a producer's piece), both modelled; the buffer size is positive -/
+theorem outbuf_source_shape :
+    outbuf_methods_deferring_http_channel = ["refill_buffer"] ∧ outbuf_methods_http_channel = [] ∧
+    outbuf_methods_async_chat = ["initiate_send", "handle_write", "refill_buffer", "push_with_producer", "discard_buffers"] ∧
+    refillAssignsOutBuffer.length = 2 ∧ 1 ≤ chanOutBufferSize := by decide
+
+/-- a bytes object taken from the fifo is appended as well -/
+theorem refill_bytes_object_appends (buf p : Bytes) : chRefill_a1 buf p = buf ++ p := rfl
+
+/-- `refill_buffer` appends: the buffer afterwards is the buffer before followed by exactly what the
+    producers handed over, and those bytes are the data of the answers consumed -/
+theorem refill_appends (buf : Bytes) (pending : List Ans) :
+    (refill buf pending).buf = buf ++ (refill buf pending).got ∧
+    (refill buf pending).got ++ dataOf (refill buf pending).pending = dataOf pending := by
+  induction pending with
+  | nil => simp [refill, dataOf]
+  | cons a rest ih =>
+    cases a with
+    | notDone => simp [refill, dataOf]
+    | data d =>
+      unfold refill
+      by_cases h : chRefill_g6 buf d = true
+      · simp [h, chRefill_a4, dataOf]
+      · have hd : d = [] := by simpa [chRefill_g6] using h
+        have h' : chRefill_g6 buf d = false := by simpa using h
+        simp only [h', Bool.false_eq_true, if_false, dataOf, hd, List.nil_append]
+        exact ih
+
+theorem refillIfLow_appends (obs : Int) (c : Chan) :
+    (refillIfLow obs c).buf = c.buf ++ (refillIfLow obs c).got ∧
+    (refillIfLow obs c).got ++ dataOf (refillIfLow obs c).pending = dataOf c.pending := by
+  unfold refillIfLow
+  split
+  · exact refill_appends c.buf c.pending
+  · simp
+
+/-- nothing lost, nothing duplicated, order kept: what the socket accepted followed by what is still
+    buffered is what the producers handed over … -/
+def Inv (c : Chan) : Prop := c.sent ++ c.buf = c.yielded
+
+theorem initiateSend_inv (obs : Int) (k : Nat) (c : Chan) (h : Inv c) : Inv (initiateSend obs k c) := by
+  have hr := (refillIfLow_appends obs c).1
+  unfold Inv at *
+  unfold initiateSend
+  simp only
+  split
+  · rename_i hgo
+    simp only [initSend_c0_0, initSend_a2, pySliceTo, pySliceFrom, Int.toNat_natCast, List.take_take]
+    have hmin : min (min k (List.take obs.toNat (refillIfLow obs c).buf).length) obs.toNat =
+        min k (List.take obs.toNat (refillIfLow obs c).buf).length := by
+      simp only [List.length_take]; omega
+    rw [hmin, List.append_assoc, List.take_append_drop, hr, ← List.append_assoc, h]
+  · rw [hr, ← List.append_assoc, h]
+
+theorem run_inv (obs : Int) (ks : List Nat) : ∀ c : Chan, Inv c → Inv (run obs ks c) := by
+  induction ks with
+  | nil => intro c h; exact h
+  | cons k ks ih => intro c h; exact ih _ (initiateSend_inv obs k c h)
+
+/-- … and what they handed over, followed by what they have yet to answer, is what they answer in all -/
+def Inv2 (total : Bytes) (c : Chan) : Prop := c.yielded ++ dataOf c.pending = total
+
+theorem initiateSend_inv2 (obs : Int) (k : Nat) (total : Bytes) (c : Chan) (h : Inv2 total c) :
+    Inv2 total (initiateSend obs k c) := by
+  have hr := (refillIfLow_appends obs c).2
+  unfold Inv2 at *
+  unfold initiateSend
+  simp only
+  rw [List.append_assoc, hr, h]
+
+theorem run_inv2 (obs : Int) (total : Bytes) (ks : List Nat) : ∀ c : Chan, Inv2 total c → Inv2 total (run obs ks c) := by
+  induction ks with
+  | nil => intro c h; exact h
+  | cons k ks ih => intro c h; exact ih _ (initiateSend_inv2 obs k total c h)
+
+/-- **outbuf_conserves.**  For every buffer size, every list of producer answers and every schedule
+    of how many bytes the socket accepts on each `initiate_send`: the bytes sent so far, followed by
+    the bytes still in the channel's buffer, followed by the bytes the producers have yet to hand
+    over, are exactly the bytes the producers answer, in order — no byte is lost, repeated or moved. -/
+theorem outbuf_conserves (obs : Int) (answers : List Ans) (accepts : List Nat) :
+    (run obs accepts { pending := answers }).sent ++ (run obs accepts { pending := answers }).buf ++
+      dataOf (run obs accepts { pending := answers }).pending = dataOf answers := by
+  have h1 : Inv (run obs accepts { pending := answers }) := run_inv obs accepts _ (by simp [Inv])
+  have h2 : Inv2 (dataOf answers) (run obs accepts { pending := answers }) := run_inv2 obs _ accepts _ (by simp [Inv2])
+  unfold Inv at h1; unfold Inv2 at h2
+  rw [h1, h2]
+
+/-! #### the buffer drains: every byte the producers hand over is eventually sent -/
+
+/-- bytes still to be sent plus answers still to be asked for -/
+def todo (c : Chan) : Nat := c.buf.length + (dataOf c.pending).length + c.pending.length
+
+theorem refill_pending_le (buf : Bytes) (pending : List Ans) :
+    (refill buf pending).pending.length ≤ pending.length ∧
+    (pending ≠ [] → (refill buf pending).pending.length < pending.length) := by
+  induction pending with
+  | nil => simp [refill]
+  | cons a rest ih =>
+    cases a with
+    | notDone => simp [refill]
+    | data d =>
+      unfold refill
+      by_cases h : chRefill_g6 buf d = true
+      · simp [h]
+      · have h' : chRefill_g6 buf d = false := by simpa using h
+        simp only [h', Bool.false_eq_true, if_false, List.length_cons, ne_eq, reduceCtorEq, not_false_eq_true, forall_const]
+        omega
+
+theorem refillIfLow_todo (obs : Int) (c : Chan) :
+    (refillIfLow obs c).buf.length + (dataOf (refillIfLow obs c).pending).length = c.buf.length + (dataOf c.pending).length ∧
+    (refillIfLow obs c).pending.length ≤ c.pending.length := by
+  obtain ⟨h1, h2⟩ := refillIfLow_appends obs c
+  constructor
+  · have := congrArg List.length h2
+    rw [h1]
+    simp only [List.length_append] at this ⊢
+    omega
+  · unfold refillIfLow
+    split
+    · exact (refill_pending_le c.buf c.pending).1
+    · simp
+
+theorem initiateSend_todo (obs : Int) (k : Nat) (c : Chan) (hobs : 1 ≤ obs) (hk : 1 ≤ k) :
+    todo (initiateSend obs k c) + 1 ≤ todo c ∨ (todo c = 0 ∧ todo (initiateSend obs k c) = 0) := by
+  obtain ⟨h1, h2⟩ := refillIfLow_todo obs c
+  have hap := (refillIfLow_appends obs c).1
+  by_cases hb : (refillIfLow obs c).buf = []
+  · -- nothing to send: the buffer was empty, so the refill was attempted
+    have hcb : c.buf = [] := by
+      have := congrArg List.length hap
+      rw [hb] at this
+      simp only [List.length_nil, List.length_append] at this
+      exact List.eq_nil_of_length_eq_zero (by omega)
+    have hlow : initSend_g0 c.buf obs 0 true = true := by simp [initSend_g0, hcb]; omega
+    have hstep : todo (initiateSend obs k c) = (refillIfLow obs c).buf.length + (dataOf (refillIfLow obs c).pending).length + (refillIfLow obs c).pending.length := by
+      simp [todo, initiateSend, hb, initSend_g1]
+    by_cases hp : c.pending = []
+    · right
+      have hz : (refillIfLow obs c).pending.length = 0 := by rw [hp] at h2; simpa using h2
+      have hd : (dataOf c.pending).length = 0 := by rw [hp]; simp [dataOf]
+      have hcl : c.buf.length = 0 := by rw [hcb]; rfl
+      have hpl : c.pending.length = 0 := by rw [hp]; rfl
+      refine ⟨?_, ?_⟩
+      · unfold todo; omega
+      · rw [hstep]; omega
+    · left
+      have hlt : (refillIfLow obs c).pending.length < c.pending.length := by
+        unfold refillIfLow
+        simp only [hlow, if_true]
+        exact (refill_pending_le c.buf c.pending).2 hp
+      rw [hstep]; unfold todo; omega
+  · left
+    have hlen : 1 ≤ (refillIfLow obs c).buf.length := by
+      cases hh : (refillIfLow obs c).buf with
+      | nil => exact absurd hh hb
+      | cons _ _ => simp
+    have hoff : (initSend_c0_0 (refillIfLow obs c).buf obs 0 true).length = min obs.toNat (refillIfLow obs c).buf.length := by
+      simp [initSend_c0_0, pySliceTo]
+    have hn : 1 ≤ min k (initSend_c0_0 (refillIfLow obs c).buf obs 0 true).length := by rw [hoff]; omega
+    have hn2 : min k (initSend_c0_0 (refillIfLow obs c).buf obs 0 true).length ≤ (refillIfLow obs c).buf.length := by rw [hoff]; omega
+    have hgo : (initSend_g1 (refillIfLow obs c).buf obs 0 true &&
+        initSend_g2 (refillIfLow obs c).buf obs ((min k (initSend_c0_0 (refillIfLow obs c).buf obs 0 true).length : Nat) : Int) true) = true := by
+      have : (refillIfLow obs c).buf.isEmpty = false := by simpa using hb
+      simp only [initSend_g1, initSend_g2, this, Bool.not_false, Bool.and_true, Bool.true_and, bne_iff_ne, ne_eq]
+      omega
+    simp only [todo, initiateSend, hgo, if_true, initSend_a2, pySliceFrom, Int.toNat_natCast, List.length_drop]
+    omega
+
+theorem run_todo (obs : Int) (hobs : 1 ≤ obs) (ks : List Nat) (hks : ∀ k ∈ ks, 1 ≤ k) :
+    ∀ c : Chan, todo (run obs ks c) ≤ todo c - ks.length := by
+  induction ks with
+  | nil => intro c; simp [run]
+  | cons k ks ih =>
+    intro c
+    have hk : 1 ≤ k := hks k (by simp)
+    have := ih (fun k' hk' => hks k' (by simp [hk'])) (initiateSend obs k c)
+    simp only [run, List.length_cons]
+    rcases initiateSend_todo obs k c hobs hk with h | ⟨h0, h1⟩ <;> omega
+
+/-- **outbuf_delivers_everything.**  With a positive buffer size and a socket that accepts at least
+    one byte whenever it is offered some, after enough `initiate_send` calls the buffer is empty, no
+    answer is outstanding and the bytes sent are exactly the bytes the producers answered — whatever
+    the sizes of the pieces (larger or smaller than the buffer size) and whatever the amounts the
+    socket accepted each time. -/
+theorem outbuf_delivers_everything (obs : Int) (hobs : 1 ≤ obs) (answers : List Ans) (accepts : List Nat)
+    (hacc : ∀ k ∈ accepts, 1 ≤ k) (hlen : (dataOf answers).length + answers.length ≤ accepts.length) :
+    (run obs accepts { pending := answers }).sent = dataOf answers ∧
+    (run obs accepts { pending := answers }).buf = [] ∧ (run obs accepts { pending := answers }).pending = [] := by
+  have ht : todo (run obs accepts { pending := answers }) = 0 := by
+    have := run_todo obs hobs accepts hacc { pending := answers }
+    have h0 : todo ({ pending := answers } : Chan) = (dataOf answers).length + answers.length := by simp [todo]
+    omega
+  have hb : (run obs accepts { pending := answers }).buf = [] :=
+    List.eq_nil_of_length_eq_zero (by unfold todo at ht; omega)
+  have hp : (run obs accepts { pending := answers }).pending = [] :=
+    List.eq_nil_of_length_eq_zero (by unfold todo at ht; omega)
+  have h' := outbuf_conserves obs answers accepts
+  refine ⟨?_, hb, hp⟩
+  rw [hb, hp] at h'
+  simpa [dataOf] using h'
+
+/-- **logtail_stream_through_channel.**  The chunked /logtail stream through the channel's buffer and
+    the network: if the producers answer (in pieces of any size, with any NOT_DONE_YET in between)
+    the encoding of the chunk list `cs`, then for every send-size schedule as above and every
+    fragmentation of what was sent into TCP segments, the bundled client feeds its listener exactly
+    `cs`, in order, without error. -/
+theorem logtail_stream_through_channel (cs : List Bytes) (hcs : ∀ d ∈ cs, d ≠ [])
+    (obs : Int) (hobs : 1 ≤ obs) (answers : List Ans) (hans : dataOf answers = encode cs)
+    (accepts : List Nat) (hacc : ∀ k ∈ accepts, 1 ≤ k) (hlen : (dataOf answers).length + answers.length ≤ accepts.length)
+    (segs : List Bytes) (hne : segs ≠ []) (hsegs : segs.flatten = (run obs accepts { pending := answers }).sent) :
+    (feedAll initDec segs).core.fed = cs ∧ (feedAll initDec segs).core.err = none := by
+  have h := (outbuf_delivers_everything obs hobs answers accepts hacc hlen).1
+  rw [h, hans] at hsegs
+  have := chunk_roundtrip cs hcs segs hne hsegs
+  exact ⟨this.1, this.2.1⟩
+
+
+-- non-vacuity: buffer size 4, pieces of 6 and 2 bytes with a NOT_DONE_YET between, the socket accepting 4, 1, 4, 4, 4 bytes
+example : (OutBuf.run 4 [4, 1, 4, 4, 4] { pending := [.data [1, 2, 3, 4, 5, 6], .notDone, .data [7, 8]] }).sent = [1, 2, 3, 4, 5, 6, 7, 8] := by decide
+example : (OutBuf.run 4 [4, 1] { pending := [.data [1, 2, 3, 4, 5, 6], .data [7, 8]] }) =
+    { buf := [6, 7, 8], pending := [], sent := [1, 2, 3, 4, 5], yielded := [1, 2, 3, 4, 5, 6, 7, 8], asked := 2 } := by decide
+example : dataOf [.data [50, 13, 10, 104, 105, 13, 10], .notDone, .data [49, 13, 10, 33, 13, 10]] = encode [[104, 105], [33]] := by decide
 
 end Sv.Props.C16
